@@ -272,15 +272,16 @@ def failing_theorems(log: str) -> list[str]:
 _DRIVER_CACHE: dict[str, t.Any] = {}
 
 
-def model(lines: list[dict], timeout: int = 3000) -> list[t.Any]:
+def model(lines: list[dict], driver: str = "Path", timeout: int = 3000) -> list[t.Any]:
     """Run the Lean model driver on a batch of protocol lines; returns the decoded answers.
 
+    `driver` names the file Capella/Driver/<driver>.lean (each has its own `main`).
     Answer i is {"ok": value} or {"err": msg}."""
     if not lines:
         return []
     payload = "\n".join(json.dumps(l, ensure_ascii=False, separators=(",", ":")) for l in lines) + "\n"
     try:
-        p = _run(["lake", "env", "lean", "--run", "Capella/Driver/Main.lean"], LEAN, timeout=timeout, input=payload)
+        p = _run(["lake", "env", "lean", "--run", f"Capella/Driver/{driver}.lean"], LEAN, timeout=timeout, input=payload)
     except subprocess.TimeoutExpired:
         raise InfraError("model driver timed out") from None
     if p.returncode != 0:
